@@ -347,6 +347,60 @@ def replay(path):
     return 1 if (domain == "in_domain" and problems) else 0
 
 
+# ----------------------------------------------------------------------------- placement matrix
+# Statements whose C translation needs a declaration collected by a pre-pass (function-pointer typedefs, tuple typedefs,
+# struct / union compound literals), each as the ONLY occurrence of its type, inside every kind of statement container.
+PM_DECLS = ("struct PmS { a: int, s: string }\nunion PmU { A { x: int }, B { s: string } }\n"
+            "fn pm_f(a: int, s: string) -> string {\n    return (+ s (int_to_string a))\n}\nshadow pm_f { assert true }\n"
+            "fn pm_g(a: bool) -> int {\n    return 3\n}\nshadow pm_g { assert true }\n")
+PM_STATEMENTS = {
+    "fn_let": ["let h: fn(int, string) -> string = pm_f", '(println (h 1 "z"))'],
+    "fn_let_other_signature": ["let h: fn(bool) -> int = pm_g", "(println (h true))"],
+    "tuple_let": ['let t: (int, string, bool) = (4, "tt", true)', "(println t.1)"],
+    "struct_let": ['let p: PmS = PmS { a: 5, s: "ss" }', "(println p.s)"],
+    "union_let": ['let u: PmU = PmU.B { s: "uu" }', "match u {", "    A(q) => { (println q.x) }", "    B(q) => { (println q.s) }", "}"],
+    "array_of_string_let": ['let a: array<string> = ["p", "q"]', "(println (at a 1))"],
+}
+PM_CONTAINERS = {
+    "top": "%s",
+    "if_then": "if (== c 1) {\n%s\n}",
+    "if_else": "if (== c 2) {\n    (println 0)\n} else {\n%s\n}",
+    "else_if": "if (== c 2) {\n    (println 0)\n} else if (== c 1) {\n%s\n} else {\n    (println 9)\n}",
+    "else_of_else_if": "if (== c 2) {\n    (println 0)\n} else if (== c 3) {\n    (println 9)\n} else {\n%s\n}",
+    "while": "let mut w: int = 0\nwhile (< w 1) {\n    set w (+ w 1)\n%s\n}",
+    "for": "for i in (range 0 1) {\n%s\n}",
+    "match_arm": "let m: PmU = PmU.A { x: 1 }\nmatch m {\n    A(z) => {\n%s\n    }\n    B(z) => { (println z.s) }\n}",
+    "nested_else_in_while": "let mut w: int = 0\nwhile (< w 1) {\n    set w (+ w 1)\n    if (== c 2) {\n        (println 0)\n    } else {\n%s\n    }\n}",
+    "unsafe_block": "unsafe {\n%s\n}",
+}
+
+
+def placement_matrix():
+    out = {}
+    for sn, stmts in PM_STATEMENTS.items():
+        for cn, tmpl in PM_CONTAINERS.items():
+            inner = "\n".join("        " + l for l in stmts)
+            body = tmpl % inner
+            for where in ("main", "helper"):
+                if where == "main":
+                    src = PM_DECLS + "fn main() -> int {\n    let c: int = 1\n" + "\n".join("    " + l for l in body.split("\n")) + "\n    return 0\n}\nshadow main { assert true }\n"
+                else:
+                    src = (PM_DECLS + "fn pm_host(c: int) -> int {\n" + "\n".join("    " + l for l in body.split("\n")) + "\n    return c\n}\nshadow pm_host { assert true }\n"
+                           "fn main() -> int {\n    (println (pm_host 1))\n    return 0\n}\nshadow main { assert true }\n")
+                out["%s/%s/%s" % (sn, cn, where)] = src
+    return out
+
+
+def matrix_job(args):
+    widx, items = args
+    ctx = make_ctx(300 + widx, "quick", {})
+    res = []
+    for (name, src) in items:
+        domain, problems = check_program(ctx, src, "pm.nano")
+        res.append((name, domain, problems, src))
+    return res
+
+
 def main(tier):
     ev = Evidence(PROP, tier, "exploration", RULE)
     ctx = make_ctx(99, tier, {})
@@ -373,6 +427,27 @@ def main(tier):
             print("C04: fixed finding %s is back: %s" % (f["id"], last[1][0][1] if last[1] else ""))
             common.report_violation(PROP, rp)
             nviol += 1
+    # placement matrix (exhaustive: 6 statements x 10 containers x 2 hosts)
+    pm = sorted(placement_matrix().items())
+    chunks = [pm[i::common.NCPU] for i in range(common.NCPU)]
+    roots = set()
+    for lst in common.parallel_map(matrix_job, [(i, c) for i, c in enumerate(chunks) if c]):
+        for (name, domain, problems, src) in lst:
+            ev.case("placement:" + name, domain == "in_domain" and not problems)
+            ev.cls("placement_" + domain)
+            if domain == "in_domain" and problems:
+                root = name.split("/")[0] + "/" + name.split("/")[1]
+                if root in roots:
+                    continue
+                roots.add(root)
+                bad, last = confirm(ctx, src, 2)
+                if not bad:
+                    ev.inconclusive += 1
+                    continue
+                p = common.save_replay(PROP, "placement_%s.nano" % name.replace("/", "_"), src)
+                print("C04: %s: %s: %s" % (name, problems[0][0], problems[0][1]))
+                common.report_violation(PROP, p)
+                nviol += 1
     total = 1200 if tier == "quick" else 20000
     results = harness.run_workers("pbt.c04_no_stuck", tier, total)
     for r in results:
